@@ -85,24 +85,31 @@ def templates(rng, k):
     acy = L + ['@update', 'def P1():', f'  s.p.p @= Pt( s.i {op1} s.m, s.i[0:4] )', '@update', 'def P2():', '  s.o @= s.p.c', '@update', 'def Q():', f'  s.p.c @= s.p.p.a[0:4] {op2} {c1 % 16}']
     return 'false-loop-mid-level-struct', mk(n, cyc), mk(n + 'a', acy), I, 'fixed'
   if t == 9:   # a convergent loop that runs through K >= 3 different host components (one update block each)
-    K = rng.randrange(3, 7); h = max(1, w // 2)
+    K = rng.randrange(3, 13); h = max(1, w // 2)
     mono = rng.random() < 0.5
     if mono: f0 = f1 = 's.out @= ( s.in_ | s.ext ) & s.msk'          # monotone: settles from any start
     else:    f0, f1 = f's.out @= ( s.in_ >> {h} ) + s.ext', 's.out @= s.in_ ^ s.ext'   # one contracting stage: bits leave the loop
+    # every third node decides with a branch (schedulers weigh and pack blocks by their branches); both arms keep the node's kind
+    f2 = ('if s.msk[0]:\n          s.out @= ( s.in_ | s.ext ) & s.msk\n        else:\n          s.out @= s.in_ & s.msk') if mono else \
+         ('if s.msk[0]:\n          s.out @= s.in_ ^ s.ext\n        else:\n          s.out @= s.in_')
     node = f'''
 class RingNode( Component ):
-  def construct( s, first ):
+  def construct( s, kind ):
     s.in_ = InPort( {w} ); s.ext = InPort( {w} ); s.msk = InPort( {w} ); s.out = OutPort( {w} )
-    if first:
+    if kind == 0:
       @update
       def up_first():
         {f0}
-    else:
+    elif kind == 1:
       @update
       def up_node():
         {f1}
+    else:
+      @update
+      def up_branchy():
+        {f2}
 '''
-    L = decl + [f's.node = [ RingNode( i == 0 ) for i in range({K}) ]', f's.o = OutPort( {w} )', 'connect( s.o, s.node[0].out )']
+    L = decl + [f's.node = [ RingNode( 0 if i == 0 else ( 2 if i % 3 == 2 else 1 ) ) for i in range({K}) ]', f's.o = OutPort( {w} )', 'connect( s.o, s.node[0].out )']
     order = list(range(K)); rng.shuffle(order)          # construction order of the connections is not the ring order
     for i in order:
       L += [f'connect( s.node[{i}].out, s.node[{(i + 1) % K}].in_ )', f'connect( s.node[{i}].msk, s.m )']
